@@ -65,6 +65,31 @@ impl Property for C16 {
                 }
             }
         }
+        for t in [TID_D, TID_A, 18u8] {
+            let c = fixed_cap(t).unwrap_or(usize::MAX);
+            for n in LONG_LENS {
+                if !sh.mine() {
+                    continue;
+                }
+                let n = n.min(c);
+                let mut vals = long_values(n);
+                vals.push(Bits::zeros(n));
+                for r in [1usize, 63, 64, 65, 511, 512, 513, 1023, 1024] {
+                    // runs of ones / zeros of length r at either end
+                    vals.push(Bits((0..n).map(|i| i < r).collect()));
+                    vals.push(Bits((0..n).map(|i| i >= n - r).collect()));
+                    vals.push(Bits((0..n).map(|i| i >= r).collect()));
+                    vals.push(Bits((0..n).map(|i| i < n - r).collect()));
+                }
+                for a in vals {
+                    for prov in [Prov::Canon, Prov::Spare(4200)] {
+                        if !f(C16Case { a: Operand { ty: t, bits: a.clone(), prov } }) {
+                            return;
+                        }
+                    }
+                }
+            }
+        }
         for t in 0..NT {
             let c = fixed_cap(t).unwrap_or(260).min(260);
             let w = WORD_BITS[t as usize];
